@@ -233,7 +233,12 @@ class Interp(object):
             if len(json.dumps(result)) > MAX_DATA:
                 raise StateError("States.DataLimitExceeded", "")
             result = self.template(st.get("ResultSelector"), result)
-            return self.finish(st, data, result)
+            out = self.finish(st, data, result)
+            if "Next" in st:
+                # a transition refused because the state's output exceeds the data quota is a failure *of this state*: its own
+                # retriers and catchers apply (the engine hands change_state's error to the state's handle_error)
+                self.check_size(out)
+            return out
         out, nxt = self.with_handlers(name, st, data, body, None)
         return out, (nxt or st.get("Next")), None
 
